@@ -55,6 +55,8 @@ type qMsg struct {
 	AuthPassword  string            `json:"auth_password,omitempty"`
 	Plans         []qPlan           `json:"plans,omitempty"`
 	Abort         bool              `json:"abort,omitempty"` // the client aborts after Body instead of committing
+	// the message is submitted this many virtual minutes after the previous one (0 = immediately)
+	AcceptAfterMin int `json:"accept_after_min,omitempty"`
 }
 
 type qScenario struct {
@@ -68,7 +70,12 @@ type qScenario struct {
 
 // ---- history ---------------------------------------------------------------------------------
 
+// qSeq, when set, stamps every recorded event with a global sequence number
+// shared with the file-system operation log (C02).
+var qSeq func() int64
+
 type qEvent struct {
+	Seq     int64
 	At      time.Duration // virtual time since the start of the scenario
 	Msg     string
 	Attempt int
@@ -88,6 +95,8 @@ type qAttempt struct {
 	Committed bool
 	Aborted   bool
 	AfterStop bool // started after the queue was restarted at least once
+	StartSeq  int64
+	CommitSeq int64
 }
 
 type qReport struct {
@@ -99,6 +108,7 @@ type qReport struct {
 	Committed bool
 	Aborted   bool
 	At        time.Duration
+	CommitSeq int64
 }
 
 type qHistory struct {
@@ -113,11 +123,17 @@ type qHistory struct {
 	Hang     bool
 	SpoolAt  map[int][]string // spool file names with content, captured before each restart
 	MetaDump []string
+	SpoolDir string
+	// sequence stamps (qSeq) at which the whole system was observed quiescent
+	QuiescentSeqs []int64
 }
 
 func (h *qHistory) ev(e qEvent) {
 	h.mu.Lock()
 	e.At = time.Since(h.t0)
+	if qSeq != nil {
+		e.Seq = qSeq()
+	}
 	h.Events = append(h.Events, e)
 	h.mu.Unlock()
 }
@@ -169,6 +185,9 @@ func (t *qTarget) Start(ctx context.Context, meta *module.MsgMetadata, from stri
 	t.attempts[base]++
 	n := t.attempts[base]
 	a := &qAttempt{Msg: base, N: n, From: from, Meta: *meta, AfterStop: t.h.Restarts > 0}
+	if qSeq != nil {
+		a.StartSeq = qSeq()
+	}
 	if meta.OriginalRcpts != nil {
 		a.Meta.OriginalRcpts = map[string]string{}
 		for k, v := range meta.OriginalRcpts {
@@ -247,6 +266,9 @@ func (d *qDelivery) Commit(ctx context.Context) error {
 	d.done = true
 	if err == nil {
 		d.a.Committed = true
+		if qSeq != nil {
+			d.a.CommitSeq = qSeq()
+		}
 	}
 	return err
 }
@@ -312,6 +334,9 @@ func (d *qBounceDelivery) Commit(ctx context.Context) error {
 		return fmt.Errorf("bounce target: commit failed")
 	}
 	d.r.Committed = true
+	if qSeq != nil {
+		d.r.CommitSeq = qSeq()
+	}
 	return nil
 }
 
@@ -403,6 +428,9 @@ func qRun(sc qScenario, observe func(dir string, h *qHistory)) *qHistory {
 		q := qNewQueue(spool, &sc, tgt, bounce)
 		ctx := context.Background()
 		for _, m := range sc.Msgs {
+			if m.AcceptAfterMin > 0 {
+				time.Sleep(time.Duration(m.AcceptAfterMin) * time.Minute)
+			}
 			meta := &module.MsgMetadata{
 				ID: m.ID, OriginalFrom: m.OriginalFrom, TLSRequireOverride: m.TLSOverride,
 				SMTPOpts: smtp.MailOptions{UTF8: m.UTF8, RequireTLS: m.RequireTLS},
@@ -458,8 +486,12 @@ func qRun(sc qScenario, observe func(dir string, h *qHistory)) *qHistory {
 		}
 		restarts := append([]int(nil), sc.RestartAfter...)
 		sort.Ints(restarts)
+		h.SpoolDir = spool
 		for {
 			synctest.Wait()
+			if qSeq != nil {
+				h.QuiescentSeqs = append(h.QuiescentSeqs, qSeq())
+			}
 			if observe != nil {
 				observe(spool, h)
 			}
@@ -502,3 +534,45 @@ func qParseHeader(raw string) (textproto.Header, error) {
 }
 
 func bufioReader(s string) *bufio.Reader { return bufio.NewReader(strings.NewReader(s)) }
+
+
+// qRecover starts a fresh queue on an existing spool directory (a crash
+// image) with a downstream target that accepts everything, runs it to
+// quiescence on the virtual clock and returns the history.
+func qRecover(spool string, sc qScenario, horizon time.Duration) *qHistory {
+	h := &qHistory{SpoolAt: map[int][]string{}}
+	oldRecover := dontRecover
+	dontRecover = false
+	defer func() { dontRecover = oldRecover }()
+	oldOut := log.DefaultLogger.Out
+	log.DefaultLogger.Out = log.FuncOutput(func(_ time.Time, _ bool, s string) {
+		h.mu.Lock()
+		h.Logs = append(h.Logs, s)
+		h.mu.Unlock()
+	}, func() error { return nil })
+	defer func() { log.DefaultLogger.Out = oldOut }()
+	plain := qScenario{MaxTries: sc.MaxTries, Partial: sc.Partial, Bounce: sc.Bounce}
+	synctest.Test(qT, func(t *testing.T) {
+		h.t0 = time.Now()
+		tgt := &qTarget{sc: &plain, h: h, attempts: map[string]int{}, partial: sc.Partial}
+		var bounce module.DeliveryTarget
+		if sc.Bounce != "none" {
+			bounce = &qBounce{h: h}
+		}
+		q := qNewQueue(spool, &plain, tgt, bounce)
+		for {
+			synctest.Wait()
+			if !qSpoolBusy(spool) {
+				break
+			}
+			if time.Since(h.t0) > horizon {
+				h.Hang = true
+				break
+			}
+			time.Sleep(4 * time.Minute)
+		}
+		q.Close()
+		h.Files = qSpoolFiles(spool)
+	})
+	return h
+}
